@@ -904,6 +904,12 @@ def _walk_no_scopes(n):
 
 def _ast_families(src, tree):
     f = set()
+    for _n in ast.walk(tree):
+        if isinstance(_n, ast.BoolOp):
+            for _o in _n.values:
+                if (isinstance(_o, ast.Call) and isinstance(_o.func, ast.Name) and _o.func.id == "divmod"
+                        and any(isinstance(_a, ast.Constant) and isinstance(_a.value, (int, float)) for _a in _o.args)):
+                    f.add("divmod_ctuple_as_boolean_operand")
     parent = {}
     for n in ast.walk(tree):
         for c in ast.iter_child_nodes(n):
@@ -1277,6 +1283,7 @@ FAMILY_RULES = [
     ("arith_on_builtin_method_of_literal", "positioned", r"^Invalid (operand )?types? for '[^']+' \(.*\(.*object", "arith_on_builtin_method_of_literal"),
     ("call_of_numeric_literal", "positioned", r"^Calling non-function type '(long|double|double complex)'", "call_of_numeric_literal"),
     ("slice_bound_float_literal", "positioned", r"^Cannot assign type '(double|double complex)' to 'Py_ssize_t'", "slice_bound_float_literal"),
+    ("divmod_ctuple_as_boolean_operand", "c_error", r"(wrong type argument to unary exclamation mark|used struct type value where scalar is required)", "divmod_ctuple_as_boolean_operand"),
     ("star_unpack_of_numeric_literal", "positioned", r"^starred expression is not allowed here", "star_unpack_of_numeric_literal"),
     ("async_for_over_numeric_literal", "positioned", r"^async for loops not allowed on C/C\+\+ types", "async_for_over_numeric_literal"),
 ]
@@ -1460,6 +1467,7 @@ FAMILY_PROBES = [
     ("complex_order", ".py", "x = 1j < 2\n", "static_operand_type_error_on_literal_operands"),
     ("call_literal", ".py", "@1.5\ndef f(): pass\n", "call_of_numeric_literal"),
     ("slice_float", ".py", "def f():\n    return 'abc'[:.5]\n", "slice_bound_float_literal"),
+    ("divmod_bool", ".py", "v = 3\nx = divmod(1E-5, v) or 0\n", "divmod_ctuple_as_boolean_operand"),
     ("star_literal", ".py", "x = [*2]\n", "star_unpack_of_numeric_literal"),
     ("with_float", ".py", "def f(v):\n    with v, 2j:\n        pass\n", "with_context_c_float_value"),
     ("with_float_call", ".py", "def f(v):\n    with float(v):\n        pass\n", "with_context_c_float_value"),
